@@ -153,12 +153,6 @@ Ltac sd_projs :=
        set_jls_signal_def_s_annotation_decimate_factor set_jls_signal_def_s_utc_decimate_factor
        spd sdf eps sumdf sd_anno sd_utc d_of put].
 
-Lemma table_vals :
-  sd_table 1 = sd_table_old 1 /\ sd_table 4 = sd_table_old 4 /\ sd_table 8 = sd_table_old 8 /\
-  sd_table 16 = sd_table_old 16 /\ sd_table 24 = sd_table_old 32 /\ sd_table 32 = sd_table_old 32 /\
-  sd_table 64 = sd_table_old 64.
-Proof. repeat split. Qed.
-
 (* one case of the switch: w is a literal; the generated table constant against the hand table *)
 Ltac defaults_case :=
   unfold sd_defaults, sd_defaults_with, sd_table, sd_table_old, sd_take;
@@ -187,4 +181,49 @@ Proof.
   assert (w =? 4 = false) as -> by lia. assert (w =? 8 = false) as -> by lia.
   assert (w =? 16 = false) as -> by lia. assert (w =? 32 = false) as -> by lia.
   assert (w =? 64 = false) as -> by lia. reflexivity.
+Qed.
+
+(* ---- jls_core_signal_def_validate ---- *)
+Theorem gen_validate_eq : forall g,
+  jls_core_signal_def_validate g =
+  Z.of_N (sd_validate g.(jls_signal_def_s_signal_id) g.(jls_signal_def_s_source_id)
+                      g.(jls_signal_def_s_signal_type) g.(jls_signal_def_s_data_type)).
+Proof.
+  intros g. unfold jls_core_signal_def_validate, sd_validate.
+  rewrite parse_q_eq, parse_basetype_eq.
+  generalize (jls_signal_def_s_signal_id g) (jls_signal_def_s_source_id g) (jls_signal_def_s_signal_type g).
+  intros sid src sty.
+  generalize (sd_dt_q (jls_signal_def_s_data_type g)) (dt_basetype (jls_signal_def_s_data_type g))
+             (N.land (jls_signal_def_s_data_type g) 65535).
+  intros q bt x. cbv zeta.
+  repeat match goal with |- context [N.lor ?a ?b] =>
+    let v := eval vm_compute in (N.lor a b) in change (N.lor a b) with v end.
+  change (Z.lor 1 2) with 3%Z.
+  let v := eval vm_compute in sd_datatypes in change sd_datatypes with v.
+  let v := eval vm_compute in BASETYPE_INT in change BASETYPE_INT with v.
+  let v := eval vm_compute in BASETYPE_UINT in change BASETYPE_UINT with v.
+  change JLS_SIGNAL_COUNT with 256. change JLS_SOURCE_COUNT with 256.
+  change JLS_SIGNAL_TYPE_FSR with 0. change JLS_SIGNAL_TYPE_VSR with 1.
+  change JLS_ERROR_PARAMETER_INVALID with 5.
+  cbn [existsb].
+  destruct (256 <=? sid) eqn:E1; [assert ((256 <=? Z.of_N sid)%Z = true) as -> by lia; reflexivity|].
+  assert ((256 <=? Z.of_N sid)%Z = false) as -> by lia.
+  destruct (256 <=? src) eqn:E2; [assert ((256 <=? Z.of_N src)%Z = true) as -> by lia; reflexivity|].
+  assert ((256 <=? Z.of_N src)%Z = false) as -> by lia.
+  assert ((Z.of_N sty =? 0)%Z = (sty =? 0)) as -> by lia.
+  assert ((Z.of_N sty =? 1)%Z = (sty =? 1)) as -> by lia.
+  destruct (negb (sty =? 0) && negb (sty =? 1)); [reflexivity|].
+  assert ((Z.of_N bt =? 1)%Z = (bt =? 1)) as -> by lia.
+  assert ((Z.of_N bt =? 3)%Z = (bt =? 3)) as -> by lia.
+  assert ((Z.of_N bt =? 4)%Z = (bt =? 4)) as -> by lia.
+  assert (T : (if negb (q =? 0)
+               then if bt =? 1 then 0%Z else if bt =? 3 then 0%Z else if bt =? 4 then 5%Z else 5%Z
+               else 0%Z) =
+              Z.of_N (if negb (q =? 0) then if (bt =? 1) || (bt =? 3) then 0 else 5 else 0)).
+  { destruct (negb (q =? 0)); [|reflexivity]. destruct (bt =? 1); [reflexivity|].
+    destruct (bt =? 3); [reflexivity|]. destruct (bt =? 4); reflexivity. }
+  repeat match goal with |- context [if ?x =? ?c then _ else _] =>
+    is_var x; match x with q => fail 1 | bt => fail 1 | _ => idtac end;
+    destruct (x =? c); cbn [orb negb]; [exact T|] end.
+  reflexivity.
 Qed.
